@@ -194,7 +194,11 @@ def answer (line : String) : String :=
               let cmpS := match cmp.bad with
                 | none => s!"ok:E{cmp.exact}:A{cmp.approx}:F{cmp.fragile}"
                 | some s => s!"BAD:{s}"
-              s!"{structS} | cmp={cmpS} | th0={sh b0 n0} below={sh b1 n1} quad={sh b2 n2}"
+              -- a non-finite value is a failure of the property whatever the near-tie status of the case
+              let finS := match obs.find? (fun o => o.v.isNone) with
+                | none => s!"ok:{obs.length}"
+                | some o => s!"BAD:i={o.i}:k={o.k}"
+              s!"{structS} | cmp={cmpS} | th0={sh b0 n0} below={sh b1 n1} quad={sh b2 n2} fin={finS}"
             | _, _ => "bad-f"
   | _, _ => "bad-case"
 
